@@ -378,8 +378,12 @@ def run(ctx):
         import shutil
         shutil.rmtree(wd, ignore_errors=True)       # journals are large; keep them only when something failed
     ctx.assumptions += [
-        "CO_Tree::rebalance / redistribute_elements_in_subtree / compact_elements_in_the_rightmost_end are validated "
-        "through OK(), contents and the density clauses after every step, not transliterated",
+        "stage 2 (checks/c16_rebalance.py): rebalance / compact / redistribute / rebuild_bigger / rebuild_smaller / bulk constructor / "
+        "insert(key,data) / erase(key) are transliterated and proved (PPLV.Props.C16Rebalance) and replayed to the identical array layout; "
+        "the hinted insert(itr, key[, data]) (bisect_near + choice of the deeper candidate, then insert_precise) is covered by the stage-1 "
+        "histories (contents, OK(), returned iterator) and by the theorems on its parts, not by a layout replay of its own",
+        "invariant used by the stage-2 theorems beyond what OK() tests: a used node's parent is used (up-closed); it is proved to be "
+        "established by the bulk constructor / rebuilds and preserved by insert and erase",
         "the stored-zero set after linear_combine is followed from the library (values, support and OK() are judged)",
         "Constraint / Generator / Congruence and their systems: dense output = sparse output (no Lean model of strong normalisation)",
         "iterators used as hints are valid iterators of the same row (any position, end() included), as the documentation requires",
